@@ -58,6 +58,14 @@ def _psc(f, c):
     return core.build(sp.PacketSeqCtrl, seq_flags=_flags(f), seq_count=c)
 
 
+def _fcall(key, fn, names, *vals):
+    """module-level helper functions: called positionally as documented, and by the documented parameter names for every
+    third case (chosen from the case's own numbers, so that a replay makes the same call)"""
+    if key % 3 == 0 and not core.POSITIONAL:
+        return fn(**dict(zip(names, vals)))
+    return fn(*vals)
+
+
 def _spkt(h, sec, ud):
     return core.build(sp.SpacePacket, sp_header=h, sec_header=sec, user_data=ud)
 
@@ -160,15 +168,15 @@ def impl(op, a):
     if op == 106:
         p = sp.PacketSeqCtrl.from_raw(a[0][0]); return [[int(p.seq_flags), p.seq_count]]
     if op == 107:
-        t, s, ap, v = a[0]; b1, b2 = sp.get_space_packet_id_bytes(_ptype(t), _b(s), ap, v); return [[b1, b2]]
+        t, s, ap, v = a[0]; b1, b2 = _fcall(ap + v, sp.get_space_packet_id_bytes, ("packet_type", "secondary_header_flag", "apid", "version"), _ptype(t), _b(s), ap, v); return [[b1, b2]]
     if op == 108:
-        t, s, ap = a[0]; return [[sp.get_sp_packet_id_raw(_ptype(t), _b(s), ap)]]
+        t, s, ap = a[0]; return [[_fcall(ap, sp.get_sp_packet_id_raw, ("packet_type", "secondary_header_flag", "apid"), _ptype(t), _b(s), ap)]]
     if op == 109:
-        f, c = a[0]; return [[sp.get_sp_psc_raw(_flags(f), c)]]
+        f, c = a[0]; return [[_fcall(c, sp.get_sp_psc_raw, ("seq_flags", "seq_count"), _flags(f), c)]]
     if op == 110:
-        return [[sp.get_apid_from_raw_space_packet(bytearray(a[0]) if len(a[0]) % 2 else bytes(a[0]))]]
+        return [[_fcall(sum(a[0]), sp.get_apid_from_raw_space_packet, ("raw_packet",), bytearray(a[0]) if len(a[0]) % 2 else bytes(a[0]))]]
     if op == 111:
-        return [[sp.get_total_space_packet_len_from_len_field(a[0][0])]]
+        return [[_fcall(a[0][0], sp.get_total_space_packet_len_from_len_field, ("len_field",), a[0][0])]]
     if op == 112:
         h = _hdr(a[0])
         sec = bytes(a[1][1:]) if a[1] and a[1][0] else None
